@@ -88,6 +88,7 @@ func (c *Check) writeEvidence(wall time.Duration, violations, known int) {
 		"uncontrolled_sources":     c.env.Uncontrol,
 		"fs_read_seam":             c.env.OpenSeam,
 		"known_findings_hit":       known,
+		"statement_coverage_of_module_under_test": c.coverage,
 		"troubles":                 len(c.troubles),
 		"components": map[string]interface{}{
 			"real": []string{"go-domdistiller (rewritten scratch copy of /repo's working tree)", "go-shiori/dom", "golang.org/x/net/html", "cascadia", "gogs/chardet (go statements gated)", "golang.org/x/text", "logrus", "net/http client (redirects, timeout, cancelTimerBody)", "os files"},
